@@ -923,7 +923,8 @@ attr_has_value(struct attr_data *attr, kdump_attr_value_t newval)
 {
 	const kdump_attr_value_t *oldval = attr_value(attr);
 
-	if (!attr_isset(attr))
+	/* A value that needs revalidation is not known. */
+	if (!attr_isset(attr) || attr->flags.invalid)
 		return 0;
 
 	switch (attr->template->type) {
